@@ -131,8 +131,8 @@ def run_harness(wd, tag, stimuli, timeout=1800):
     sp = os.path.join(wd, tag + ".stim.ndjson")
     out = os.path.join(wd, tag + ".log.ndjson")
     write_ndjson(sp, stimuli)
-    vlib.run_bin("h_once", ["sync", sp, out], timeout=timeout)
-    return read_ndjson(out)
+    recs, _crashes = vlib.run_stimuli("h_once", "sync", sp, out, timeout=timeout)
+    return recs
 
 
 def runs_of(recs):
